@@ -74,7 +74,12 @@ fn main() {
             // construction included) that is a verdict: the code panicked on an input of the
             // check's domain. A panic raised by the harness itself is a machinery failure.
             let last = common::last_panic().unwrap_or_default();
-            if last.contains("@ /repo/") {
+            // location of the panic: the harness's own files are reported relative ("src/..."), the
+            // path dependency under test with its absolute source path (wherever the repository
+            // lives), third-party crates under the cargo registry, std under the toolchain
+            let loc = last.rsplit("@ ").next().unwrap_or("");
+            let in_code_under_test = loc.starts_with('/') && !loc.contains("/.cargo/") && !loc.contains("/rustc/") && !loc.contains("/rustlib/");
+            if in_code_under_test {
                 let report = common::Report::new(id, tier, "other");
                 report.violation(
                     format!("{id}:uncaught-panic-in-code-under-test:{}", engine::panic_class(&msg)),
